@@ -161,3 +161,20 @@ func init() {
 		Assumes:    []string{"the gettext/po library splits references at whitespace"},
 	})
 }
+
+func init() {
+	register(&propSpec{
+		ID:    "C15",
+		Rules: []func(*Ctx){ruleR15a, ruleR15b},
+		Explain: "R15a: the special-character commands, composed scanner table -> text table, emit exactly the language's characters, and every special-character token has a text entry handled where a tag begins; R15b: the RawTextNode built for {literal} takes its text verbatim from the token and the one for special characters from the table, while every other RawTextNode's text passes the line-joining normaliser (or is a slice of normalised text).",
+		NotDecided: "the line-joining rule itself (the bulk of the property): it is a seven-flag state machine over arbitrary strings inside rawtext(); a change inside that loop, or in the scanner's comment recognition, is NOT detected by this check.",
+		Assumes:    []string{"the language table of special-character commands in the checker"},
+	})
+	register(&propSpec{
+		ID:    "C20",
+		Rules: []func(*Ctx){ruleR20a, ruleR20b, ruleR20c, ruleR20d},
+		Explain: "R20a: no comparison against math.NaN(); R20b: the pairs of value kinds that Equals can accept form a symmetric relation that includes Int~Float; R20c: the reflect-kind switch of the conversion covers every kind the statement lists, unwraps pointers/interfaces, returns on nil before use, recognises time.Time before structs and nil slices before indexing; R20d: each Truthy is a single expression over the receiver and, evaluated on sample constants, follows the language table (null, false, 0, 0.0, NaN, \"\" falsy).",
+		NotDecided: "scalar fidelity of the conversion, idempotence, lowerCamel field names, equality of values (only the acceptance relation is decided), printing.",
+		Assumes:    []string{"the language's truthiness table in the checker"},
+	})
+}
